@@ -102,7 +102,7 @@ def sd_line_rhfr(plain_ham, C, W):
     return " ".join(t for t in toks if t != "")
 
 
-NELECS = [(2, 2), (2, 1), (1, 1), (2, 0), (3, 1), (1, 0)]
+NELECS = [(2, 2), (2, 1), (1, 1), (2, 0), (3, 1), (1, 0), (3, 2)]
 
 
 def cases(rng, kinds, tier, norbs=(3, 4)):
